@@ -14,11 +14,14 @@ import (
 // reached by small grammars).
 //
 // C13-l  a recursive descent over the rule graph is cut by a record of *completed* visits, not only by a mark for the
-//        rules currently on the stack: a visit function that clears, before returning, every flag its entry test
-//        reads, re-descends into a rule once per path that reaches it (A0 <- A1 A1, A1 <- A2 A2, …: 2^n visits).
+//
+//	rules currently on the stack: a visit function that clears, before returning, every flag its entry test
+//	reads, re-descends into a rule once per path that reaches it (A0 <- A1 A1, A1 <- A2 A2, …: 2^n visits).
+//
 // C13-m  a search over the first-graph does not enumerate every simple path: a recursive closure that ranges over the
-//        successors of a vertex and is cut only by membership in the path it carries enumerates all simple paths,
-//        of which a grammar whose n rules all start with each other has more than n!.
+//
+//	successors of a vertex and is cut only by membership in the path it carries enumerates all simple paths,
+//	of which a grammar whose n rules all start with each other has more than n!.
 func c13Hangs(c *Ctx, g *load.G) {
 	r := c.R
 	// ---- l
